@@ -137,6 +137,7 @@ type vKit struct {
 	minISR   int
 	fetchMax int
 	batch    int
+	gapMs    int
 	pending  map[string][]vRaftOp // ops committed but not yet applied by a lagging follower
 	msgSize  int64
 }
@@ -411,10 +412,11 @@ func (k *vKit) publish(v int64, pol string, big bool) string {
 	return ""
 }
 
-// publishBatch sends the messages back to back (one batch of the leader's
-// processing loop when BatchMaxMessages allows it) and waits until all are stored.
-func (k *vKit) publishBatch(vs []int64, pols []string) string {
-	if len(vs) == 1 {
+// publishBatch sends the messages of one batch (back to back, or with a small gap
+// so that later members arrive while the leader waits for the batch to fill) and
+// waits until all members that are not too large are stored.
+func (k *vKit) publishBatch(vs []int64, pols []string, bigs []bool) string {
+	if len(vs) == 1 && !bigs[0] {
 		return k.publish(vs[0], pols[0], false)
 	}
 	p := k.leaderPart()
@@ -422,9 +424,15 @@ func (k *vKit) publishBatch(vs []int64, pols []string) string {
 		return "no-leader"
 	}
 	before := p.log.NewestOffset()
+	want := int64(0)
 	for i, v := range vs {
 		val := fmt.Sprintf("m%d|", v)
-		val += strings.Repeat(".", 24-len(val))
+		if bigs[i] {
+			val += strings.Repeat("X", int(p.srv.config.Clustering.ReplicationMaxBytes)+64)
+		} else {
+			val += strings.Repeat(".", 24-len(val))
+			want++
+		}
 		data, err := proto.MarshalPublish(&client.Message{
 			Value: []byte(val), AckInbox: k.ackInbox, CorrelationId: fmt.Sprintf("c%d", v),
 			AckPolicy: vPolicy(pols[i]),
@@ -432,17 +440,25 @@ func (k *vKit) publishBatch(vs []int64, pols []string) string {
 		if err != nil {
 			k.t.Fatalf("marshal publish: %v", err)
 		}
+		if i > 0 && k.gapMs > 0 {
+			k.nc.Flush()
+			time.Sleep(time.Duration(k.gapMs) * time.Millisecond)
+		}
 		if err := k.nc.Publish(k.subject, data); err != nil {
 			return "publish-error"
 		}
 	}
 	k.nc.Flush()
 	deadline := time.Now().Add(3 * time.Second)
-	for p.log.NewestOffset() < before+int64(len(vs)) && time.Now().Before(deadline) {
+	for p.log.NewestOffset() < before+want && time.Now().Before(deadline) {
 		time.Sleep(200 * time.Microsecond)
 	}
-	if p.log.NewestOffset() < before+int64(len(vs)) {
+	if p.log.NewestOffset() < before+want {
 		return "not-appended"
+	}
+	// the batch closes when it is full or after BatchMaxTime
+	if k.batch > 1 && int(want) < k.batch {
+		time.Sleep(160 * time.Millisecond)
 	}
 	k.settle()
 	return ""
@@ -493,6 +509,11 @@ func (k *vKit) isrOp(f string, shrink bool) string {
 	ids := k.upIDs()
 	sort.Slice(ids, func(i, j int) bool { return ids[i] == k.leader && ids[j] != k.leader })
 	for _, id := range ids {
+		if len(k.pending[id]) > 0 {
+			// a lagging follower applies it later, in order
+			k.pending[id] = append(k.pending[id], op)
+			continue
+		}
 		if err := k.applyTo(id, op, false); err != nil {
 			return "apply-error:" + err.Error()
 		}
@@ -502,6 +523,7 @@ func (k *vKit) isrOp(f string, shrink bool) string {
 }
 
 func (k *vKit) elect(n string, reach bool, lag map[string]bool) string {
+	old := k.leader
 	op := k.commit(&proto.RaftLog{Op: proto.Op_CHANGE_LEADER, ChangeLeaderOp: &proto.ChangeLeaderOp{
 		Stream: k.stream, Partition: 0, Leader: n}})
 	k.leader, k.lepoch = n, op.idx
@@ -543,6 +565,20 @@ func (k *vKit) elect(n string, reach bool, lag map[string]bool) string {
 		if err := k.applyTo(n, op, false); err != nil {
 			return "apply-error:" + err.Error()
 		}
+		// a replaced leader that is still alive steps down before the other followers
+		// reconcile: otherwise it may still answer their epoch offset requests (both
+		// servers listen on the partition's request subject until it has applied the change)
+		rest := []string{}
+		for _, id := range others {
+			if id == old {
+				if err := k.applyTo(id, op, false); err != nil {
+					return "apply-error:" + err.Error()
+				}
+			} else {
+				rest = append(rest, id)
+			}
+		}
+		others = rest
 		res = applyOthers()
 	} else {
 		res = applyOthers()
@@ -791,12 +827,12 @@ func (k *vKit) step(id int, step map[string]interface{}) vRepEvent {
 	case "Publish":
 		recs := vList(step, "recs")
 		out := []map[string]interface{}{}
-		vs, pols := []int64{}, []string{}
+		vs, pols, bigs := []int64{}, []string{}, []bool{}
 		for _, r := range recs {
-			vs, pols = append(vs, vInt(r, "v")), append(pols, vStr(r, "pol"))
-			out = append(out, map[string]interface{}{"v": vInt(r, "v"), "pol": vStr(r, "pol")})
+			vs, pols, bigs = append(vs, vInt(r, "v")), append(pols, vStr(r, "pol")), append(bigs, vBool(r, "big"))
+			out = append(out, map[string]interface{}{"v": vInt(r, "v"), "pol": vStr(r, "pol"), "big": vBool(r, "big")})
 		}
-		res = k.publishBatch(vs, pols)
+		res = k.publishBatch(vs, pols, bigs)
 		args["recs"] = out
 	case "PublishRejected":
 		args["v"] = vInt(step, "v")
@@ -879,6 +915,7 @@ func TestVerifReplication(t *testing.T) {
 			ids = []string{"a"}
 		}
 		k := newVKit(t, ns, gate, b.ID, int(vIntDef(b.Cfg, "minISR", 2)), int(vIntDef(b.Cfg, "fetchMax", 2)), ids, int(vIntDef(b.Cfg, "batch", 1)))
+		k.gapMs = int(vIntDef(b.Cfg, "gapMs", 0))
 		k.create()
 		tw.Emit(vRepEvent{T: b.ID, A: "Open", Args: map[string]interface{}{}, St: k.state(),
 			Obs: map[string]interface{}{"acks": []vAck{}, "nacks": []int64{}}})
